@@ -253,3 +253,37 @@ def verify(whole: bytes, msg: ber.V3Msg, proto: str, key: bytes) -> bool:
     span = msg.usm.auth_span
     expected = hmac96(proto, key, zero_auth(whole, span))
     return hmac.compare_digest(expected, bytes(whole[span[0]:span[1]]))
+
+
+def len127_spots(data: bytes) -> List[str]:
+    """
+    Run-signature of known finding F08: names of the TLVs of an SNMPv3 message
+    that puresnmp re-encodes when it verifies the digest (message, header,
+    security parameters and their fields, msgData, context ids, PDU) whose
+    content is exactly 127 octets long.
+    """
+    spots = []
+
+    def note(name, cs, ce):
+        if ce - cs == 127:
+            spots.append(name)
+
+    try:
+        tag, cs, ce = ber.read_tlv(data, 0)
+        note("message", cs, ce)
+        kids = ber.read_children(data, cs, ce)
+        note("header", kids[1][2], kids[1][3])
+        for i, k in enumerate(ber.read_children(data, kids[1][2], kids[1][3])):
+            note("header[%d]" % i, k[2], k[3])
+        note("securityParameters", kids[2][2], kids[2][3])
+        utag, ucs, uce = ber.read_tlv(data, kids[2][2], kids[2][3])
+        note("usm", ucs, uce)
+        for i, k in enumerate(ber.read_children(data, ucs, uce)):
+            note("usm[%d]" % i, k[2], k[3])
+        note("msgData", kids[3][2], kids[3][3])
+        if kids[3][1] == ber.T_SEQ:
+            for i, k in enumerate(ber.read_children(data, kids[3][2], kids[3][3])):
+                note("scoped[%d]" % i, k[2], k[3])
+    except (ber.BerError, IndexError):
+        pass
+    return spots
